@@ -334,7 +334,30 @@ def polygon2d_stream(ctx, n):
             ctx.disagree("C09:dist:polygon2d:" + ("incident" if exp == 0 else "outside"), desc, (exp, exp, exp == 0), r[1:3], replay=[desc])
 
 
+def cross_kind_stream(ctx, n):
+    """a point and a line of the plane (plane of space) whose coordinate vectors are proportional are different objects: the distance
+    is |x·x| / (|n| w), not 0 (no equality short-cut across kinds), single and in collections, both argument orders"""
+    import geometer as g
+    rng = ctx.rng
+    for k in range(n):
+        dim = rng.choice([2, 3])
+        v = [float(rng.randint(-3, 3)) for _ in range(dim)] + [float(rng.choice([1, 2, -1]))]
+        if not any(v[:-1]):
+            continue
+        lam = rng.choice([1.0, 2.0, -0.5])
+        P = g.Point(np.array(v))
+        H = (g.Line if dim == 2 else g.Plane)(np.array(v) * lam)
+        exp = abs(sum(x * x for x in v)) / (np.sqrt(sum(x * x for x in v[:-1])) * abs(v[-1]))
+        desc = f"dist between the point {v} and the {'line' if dim == 2 else 'plane'} with coordinates {lam} * {v}"
+        ctx.case(desc)
+        ctx.count("dist:cross-kind")
+        r = call_impl(lambda: (float(g.dist(P, H)), float(g.dist(H, P))))
+        if r[0] != "ok" or not (close(r[1][0], exp) and close(r[1][1], exp)):
+            ctx.disagree("C09:dist:cross-kind", desc, exp, r[1:3], replay=[desc])
+
+
 def correspondence(ctx):
+    cross_kind_stream(ctx, ctx.budget(30, 300))
     polygon2d_stream(ctx, ctx.budget(60, 600))
     origin_lines(ctx, ctx.budget(30, 300))
     moved_polygon_stream(ctx, ctx.budget(30, 300))
